@@ -48,7 +48,39 @@ def main() -> int:
             report_dir=os.path.join(a["out"], "report"), statistics_backend=config.StatisticsBackend.NONE
         ),
     )
+    if a.get("minimization"):
+        cfg.test_case_output.minimization.test_case_minimization_strategy = config.MinimizationStrategy[a["minimization"]]
     set_configuration(cfg)
+    # Snapshot the suite right before statement minimisation (which runs after assertion generation):
+    # exported to <out>/pre so that the harness can tell whether a failing assertion was made stale by
+    # the removal of a statement.  Observation only; the real export is untouched.
+    import pynguin.generator as gen
+
+    pre_info = {}
+    orig_minimize = gen._minimize  # noqa: SLF001
+
+    def spy_minimize(generation_result, algorithm=None):
+        try:
+            from pynguin.testcase import export
+
+            pre = generation_result.clone()
+            # drop the exception-raising tail (statement minimisation truncates after it anyway): the
+            # snapshot then tells whether the assertions in front of it hold
+            for orig_c, pre_c in zip(generation_result.test_case_chromosomes, pre.test_case_chromosomes):
+                if orig_c.is_failing():
+                    pos = orig_c.get_last_mutatable_statement()
+                    if pos is not None:
+                        pre_c.test_case.chop(pos - 1)
+            sp = getattr(getattr(algorithm, "executor", None), "subject_properties", None)
+            pre_path = export.TestSuiteWriter(no_xfail=bool(a.get("no_xfail"))).write(
+                pre, a["module"], os.path.join(a["out"], "pre"), project_path=a["project"],
+                format_with_black=False, seed=None, subject_properties=sp)
+            pre_info["file"] = str(pre_path)
+        except BaseException as e:  # noqa: BLE001
+            pre_info["error"] = f"{type(e).__name__}: {e}"
+        return orig_minimize(generation_result, algorithm)
+
+    gen._minimize = spy_minimize  # noqa: SLF001
     devnull = open(os.devnull, "w")
     old_err = sys.stderr
     sys.stderr = devnull
@@ -59,7 +91,7 @@ def main() -> int:
     name = a["module"].rsplit(".", 1)[-1]
     path = os.path.join(a["out"], f"test_{name}.py")
     res = {"rc": int(getattr(rc, "value", rc)), "file": path if os.path.exists(path) else None,
-           "errors": errors[:8]}
+           "errors": errors[:8], "pre": pre_info}
     if a.get("roundtrip") and res["file"]:
         try:
             from props import _c24_lib
